@@ -190,7 +190,7 @@ ChildrenOfP(pid) == LET pn == IF pid = 0-1 THEN Root ELSE GetSeq(doc, pid) IN
                     {x.pos : x \in {All(pn)[i] : i \in {j \in 1..Len(All(pn)) : All(pn)[j].k # "text"}}}
 BodyChildren(pid) == {BodyOf(pid)[i].pos : i \in {j \in 1..Len(BodyOf(pid)) : BodyOf(pid)[j].k # "text"}}
 Replace == "replace" \in OpKinds /\ \E pid \in ReplaceHosts : \E cid \in ChildrenOfP(pid) : \E ms \in Material : ReplaceS(pid, cid, ms)
-Remove == "remove" \in OpKinds /\ \E pid \in ParentIds : \E cid \in BodyChildren(pid) : RemoveS(pid, cid)
+Remove == "remove" \in OpKinds /\ \E pid \in ReplaceHosts : \E cid \in ChildrenOfP(pid) : RemoveS(pid, cid)     \* like replace: body or argument groups
 InsertIdxOK(pid, i, ms) == i \in (0-3)..(Len(BodyOf(pid)) + 1)      \* negative indices as in list.insert; several nodes stay together
 Insert == "insert" \in OpKinds /\ \E pid \in ParentIds : \E ms \in Material : \E i \in (0-3)..(Len(BodyOf(pid)) + 1) :
             InsertIdxOK(pid, i, ms) /\ InsertS(pid, i, ms)
